@@ -23,6 +23,10 @@ use crate::{Prop, Tier};
 use regex::{Regex, RegexBuilder};
 use serde_json::{json, Value};
 
+/// `true`: the model mirrors the repaired slicing (`sliceSnap`, window ends moved to character
+/// boundaries); `false`: the original `text.get(start..end).unwrap_or("")`
+const SNAP: bool = true;
+
 pub struct C21;
 pub static P: C21 = C21;
 
@@ -127,7 +131,7 @@ fn visit(re: &Regex, text: &str, n: usize) -> Vec<(usize, (usize, usize))> {
 /// slice, then the tagged fragments.  Returns (fragments as bytes, on_boundary flags, hypotheses ok).
 fn model_fragments(drv: &mut Driver, re: &Regex, text: &str, visited: &[(usize, (usize, usize))], size: usize, nfrag: usize, pre: &str, post: &str, snippet: bool, has_pattern: bool) -> Result<(Vec<Vec<u8>>, Vec<bool>, Vec<String>), String> {
   let find: Vec<Value> = visited.iter().map(|(o, (s, e))| json!([o, s, e])).collect();
-  let base = json!({"op": "highlight", "text": hex(text.as_bytes()), "find": find, "size": size, "nfrag": nfrag, "pre": hex(pre.as_bytes()), "post": hex(post.as_bytes()), "snippet": snippet, "has_pattern": has_pattern});
+  let base = json!({"op": "highlight", "text": hex(text.as_bytes()), "find": find, "size": size, "nfrag": nfrag, "pre": hex(pre.as_bytes()), "post": hex(post.as_bytes()), "snippet": snippet, "has_pattern": has_pattern, "snap": SNAP});
   let mut r0 = base.clone();
   r0["rematch"] = json!([]);
   let m0 = drv.call("C21", r0);
